@@ -26,15 +26,36 @@ Lemma two_p_62 : 2 ^ 62 = 4611686018427387904. Proof. reflexivity. Qed.
 (* bucket_mask_to_capacity                                                                      *)
 (* ------------------------------------------------------------------------------------------ *)
 
+(* The proofs about generated definitions go through these normalising tactics, so that they do not
+   depend on how the source spells a comparison (`a < 8` / `a <= 7` / `8 > a`) or a division by a power
+   of two (`/ 8` / `>> 3`). *)
+Ltac cmp_norm :=
+  repeat match goal with
+  | |- context [Z.geb ?a ?b] => rewrite (Z.geb_leb a b)
+  | |- context [Z.gtb ?a ?b] => rewrite (Z.gtb_ltb a b)
+  | H : context [Z.geb ?a ?b] |- _ => rewrite (Z.geb_leb a b) in H
+  | H : context [Z.gtb ?a ?b] |- _ => rewrite (Z.gtb_ltb a b) in H
+  end.
+Ltac bool_hyps :=
+  repeat match goal with
+  | H : Z.ltb _ _ = true |- _ => apply Z.ltb_lt in H
+  | H : Z.ltb _ _ = false |- _ => apply Z.ltb_ge in H
+  | H : Z.leb _ _ = true |- _ => apply Z.leb_le in H
+  | H : Z.leb _ _ = false |- _ => apply Z.leb_gt in H
+  end.
+Ltac split_ifs :=
+  repeat match goal with |- context [if ?b then _ else _] => destruct b eqn:? end.
+
 Lemma bmtc_small m : 0 <= m < 8 -> bucket_mask_to_capacity m = m.
-Proof. intros H; unfold bucket_mask_to_capacity. destruct (Z.ltb_spec m 8); lia. Qed.
+Proof. intros H; unfold bucket_mask_to_capacity. cmp_norm. split_ifs; bool_hyps; lia. Qed.
 
 Lemma bmtc_large m : 8 <= m < 2 ^ 63 ->
   bucket_mask_to_capacity m = (m + 1) / 8 * 7.
 Proof.
-  intros H; unfold bucket_mask_to_capacity. destruct (Z.ltb_spec m 8); [lia|].
+  intros H; unfold bucket_mask_to_capacity. cmp_norm. split_ifs; bool_hyps; [lia|].
   unfold wmul, wadd. rewrite two_p_63 in H.
   rewrite (wrap_small 64 (m + 1)) by (rewrite two_p_64; lia).
+  rewrite ?Z.shiftr_div_pow2 by lia. change (2 ^ 3) with 8.
   apply wrap_small. rewrite two_p_64.
   assert (0 <= (m + 1) / 8 <= (m + 1)) by (split; [apply Z.div_pos; lia | apply Z.div_le_upper_bound; lia]).
   assert ((m + 1) / 8 * 8 <= m + 1) by (pose proof (Z.mul_div_le (m + 1) 8); lia).
@@ -295,4 +316,18 @@ Lemma table_layout_new_spec GW tsize talign :
   table_layout_new GW tsize talign = (tsize, Z.max talign GW).
 Proof.
   unfold table_layout_new. destruct (Z.gtb_spec talign GW); f_equal; lia.
+Qed.
+
+
+(* The decision of reserve_rehash_inner between re-hashing in place and growing (generated from the
+   source: Gen.reserve_rehash_in_place), characterised once so that the proofs that use it do not
+   depend on how the source spells "at most half of the full capacity" (`/ 2`, `>> 1`, ...). *)
+Lemma reserve_rehash_in_place_char n c : (0 <= n)%Z -> (0 <= c)%Z ->
+  reserve_rehash_in_place n c = (n <=? c / 2)%Z.
+Proof.
+  intros Hn Hc. unfold reserve_rehash_in_place.
+  first [ reflexivity
+        | rewrite ?Z.shiftr_div_pow2 by lia; change (2 ^ 1)%Z with 2%Z; reflexivity
+        | apply Bool.eq_true_iff_eq; rewrite ?Z.leb_le, ?Z.ltb_lt; rewrite ?Z.shiftr_div_pow2 by lia;
+          change (2 ^ 1)%Z with 2%Z; split; intros; Z.div_mod_to_equations; lia ].
 Qed.
